@@ -8,13 +8,13 @@ TECHNIQUE = 'runtime monitoring under a deterministic cooperative scheduler (opc
 RULE = ('2-4 real threads execute 1-3 statements each on one shared object: o.a += c, o.a -= c, o.a *= c, o.a = k, x = o.a (and o.b += c on a '
         'second attribute); the statements are real source lines of vt/wl_c27.py; detsched switches at every bytecode boundary of '
         'ThreadSafeAttribute.__get__/__set__ and of the statements themselves (so between the descriptor\'s get and set), seeded random / '
-        'PCT schedules; a thread that raises, a quiescent state with an unfinished thread (deadlock), a read that returns a value no serial '
+        'PCT schedules (in a fifth of the runs one thread is held for 2.5 s of virtual time in the middle of a statement by an injected delay; the cooperative lock honours acquire timeouts in virtual time); a thread that raises, a quiescent state with an unfinished thread (deadlock), a read that returns a value no serial '
         'order can produce, or a final value outside the set of final values of all serial orders of the same statements (computed by '
         'dynamic programming over the interleavings of whole statements) is a violation. distinct_nontrivial = distinct context-switch '
         'sequences of runs mixing >= 2 statement kinds. Every twentieth case repeats the workload (2-5 threads x 2-6 statements) on REAL threads with the real RLock (vt/osback.py: nothing substituted, switch interval 1 us, random yields at line starts of miros code and of the statements); a run that does not finish in the wall-clock limit is inconclusive there, never a verdict. ' + sysx.RULE_TEXT % (1, 1))
 CASES = {'quick': 2500, 'thorough': 150000}
 BUDGET = {'quick': 150, 'thorough': 600}
-REQUIRE = {'runs': 1000, 'runs_mixing_plain_and_augmented': 300, 'switch_between_get_and_set': 200, 'systematic_schedules': 300, 'systematic_scenarios_exhausted': 2, 'os_backend_runs': 60}
+REQUIRE = {'runs': 1000, 'runs_mixing_plain_and_augmented': 300, 'switch_between_get_and_set': 200, 'systematic_schedules': 300, 'systematic_scenarios_exhausted': 2, 'os_backend_runs': 60, 'runs_with_a_thread_held_inside_a_statement': 200}
 ASSUME = ['statement-level atomicity is the reference: the set of legal outcomes is that of all serial orders of whole statements']
 ANNOUNCE_CASES = True
 
@@ -108,6 +108,12 @@ def scenario(ctx, n):
   pol = dict(policy='random', p_switch=rng.choice([0.03, 0.1, 0.3])) if rng.random() < 0.6 else dict(policy='pct', pct_depth=rng.choice([2, 3, 4]), pct_len=600)
   s = ds.Sched(seed=rng.randrange(1 << 30), max_steps=300000, **pol)
   ds.install(s, op_mods=[TSA, wl_c27])
+  if not small and rng.random() < 0.2:
+    # a thread is held for 2.5 s of virtual time in the middle of one of its statements (possibly between the __get__ and the
+    # __set__ of an augmented assignment, holding the lock): everybody else just has to wait that long
+    s.inject = {'match': lambda me, loc: me.role == 'worker' and isinstance(loc, tuple) and loc[0] in ('inc', 'dec', 'mul', 'inc_b', 'setk', 'rd'),
+                'visit': rng.randint(1, 40), 'sleep': 2.5}
+    ctx.count('runs_with_a_thread_held_inside_a_statement')
   try:
     class K(metaclass=TSA.MetaThreadSafeAttributes):
       _attributes = ['a', 'b']
